@@ -336,6 +336,7 @@ Definition prev_check (s2 : nstate) (a : areq) : option bool :=
   if 0 <? aq_prevIdx a then
     let '(lastIdx, lastTerm) := last_entry s2 in
     if aq_prevIdx a =? lastIdx then Some (aq_prevTerm a =? lastTerm)
+    else if aq_prevIdx a =? v_lastSnapIdx s2 then Some (aq_prevTerm a =? v_lastSnapTerm s2)   (* snapshot boundary (fix: commit) *)
     else match d_log s2 !! aq_prevIdx a with
          | None => None
          | Some pe => Some (aq_prevTerm a =? e_term pe)
@@ -454,13 +455,36 @@ Definition is_body (P : params) (s2 : nstate) (rt : N) (tr1 : list ev) (fs1 : li
           let s4 := set_applied s3 (iq_lastIdx q) (iq_data q) in
           let s5 := set_lastsnap s4 (iq_lastIdx q) (iq_lastTerm q) in
           let s6 := set_committed (set_latest s5 (iq_cfg q) (iq_cfgIdx q)) (iq_cfg q) (iq_cfgIdx q) in
-          let range :=
-            if p_monotonic P
-            then remove_old (log_first (d_log s6)) (log_last (d_log s6))
-            else compact (log_first (d_log s6)) (iq_lastIdx q) (v_lastLogIdx s6) (p_trailing P) in
-          let '(s7, trc, fs4) := run_compaction s6 fs3 range in
-          Done s7 (rt, true, false)
-               (tr1 ++ [ESnap (iq_lastIdx q) (iq_lastTerm q) true; ERestore (iq_data q)] ++ trc) fs4.
+          (* after the "fix:" commit in /repo: a monotonic store is wiped and the cached tail reset;
+             otherwise a tail above the snapshot index that does not follow the snapshot (the log does
+             not hold the snapshot's last entry with its term) is deleted first, then compaction *)
+          if p_monotonic P then
+            let range := remove_old (log_first (d_log s6)) (log_last (d_log s6)) in
+            match range with
+            | None =>      (* nothing to delete: compactLogsWithTrailing returns nil *)
+              Done (set_lastlog s6 0 0) (rt, true, false)
+                   (tr1 ++ [ESnap (iq_lastIdx q) (iq_lastTerm q) true; ERestore (iq_data q)]) fs3
+            | Some (lo, hi) =>
+              let '(s7, ok, fs4) := do_delete s6 fs3 lo hi in
+              Done (if ok then set_lastlog s7 0 0 else s7) (rt, true, false)
+                   (tr1 ++ [ESnap (iq_lastIdx q) (iq_lastTerm q) true; ERestore (iq_data q); EDelete lo hi ok]) fs4
+            end
+          else
+            let stale_tail :=
+              (iq_lastIdx q <=? v_lastLogIdx s6) &&
+              match d_log s6 !! iq_lastIdx q with
+              | Some e => negb (e_term e =? iq_lastTerm q)
+              | None => true
+              end in
+            let '(s6', trt, fs3') :=
+              if stale_tail then
+                let '(s', ok, fs') := do_delete s6 fs3 (iq_lastIdx q) (v_lastLogIdx s6) in
+                (if ok then set_lastlog s' 0 0 else s', [EDelete (iq_lastIdx q) (v_lastLogIdx s6) ok], fs')
+              else (s6, [], fs3) in
+            let range := compact (log_first (d_log s6')) (iq_lastIdx q) (v_lastLogIdx s6') (p_trailing P) in
+            let '(s7, trc, fs4) := run_compaction s6' fs3' range in
+            Done s7 (rt, true, false)
+                 (tr1 ++ [ESnap (iq_lastIdx q) (iq_lastTerm q) true; ERestore (iq_data q)] ++ trt ++ trc) fs4.
 
 (* response: Term, Success, rpc error? *)
 Definition install_snapshot (P : params) (s : nstate) (fs : list bool) (q : ireq)
@@ -522,7 +546,8 @@ Definition list_snaps (l : list snapshot) : list snapshot := fold_left (fun acc 
 Inductive recovered :=
 | RecOk (s : nstate) (tr : list ev)
 | RecErr            (* NewRaft returns an error *)
-| RecPanic.         (* NewRaft panics *)
+| RecPanic          (* NewRaft panics *)
+| RecBlocks.        (* NewRaft never returns *)
 
 Definition fresh_volatile (s : nstate) : nstate :=
   mkNS (d_term s) (d_vterm s) (d_vcand s) (d_log s) (d_staged s) (d_pcommit s) (d_snaps s)
@@ -556,16 +581,31 @@ Definition rec_snapshot (s2 : nstate) : option (nstate * list ev) :=
   | None => match listing with [] => Some (s2, []) | _ => None end
   end.
 
-(* restoreFromCommittedLogs: None = ErrIncompatibleLogStore, Some None = panic in processLogs *)
-Definition rec_committed (P : params) (s3 : nstate) : option (option (nstate * list ev)) :=
+(* capacity of fsmMutateCh (api.go NewRaft): processLogs runs here before runFSM exists, so the
+   (cap+1)-th batch blocks for ever *)
+Definition fsm_mutate_cap : N := 128.
+
+Definition handed_count (s : nstate) (index : N) : N :=
+  if index <=? v_applied s then 0
+  else match collect_logs (d_log s) (v_applied s) (N.to_nat (index - v_applied s)) with
+       | None => 0
+       | Some es => N.of_nat (length (filter (fun e => prepare_kind (e_ty e) =? 1) es))
+       end.
+
+Inductive rec_c := RcErr | RcPanic | RcBlocks | RcOk (s : nstate) (tr : list ev).
+
+(* restoreFromCommittedLogs *)
+Definition rec_committed (P : params) (s3 : nstate) : rec_c :=
   if p_rc P then
-    if negb (p_track P) then None
+    if negb (p_track P) then RcErr                          (* ErrIncompatibleLogStore *)
     else let ci := N.min (d_pcommit s3) (log_last (d_log s3)) in
          match process_logs (set_commit s3 ci) ci with
-         | None => Some None
-         | Some (s4, tr4) => Some (Some (s4, tr4))
+         | None => RcPanic
+         | Some (s4, tr4) =>
+           let batches := (handed_count (set_commit s3 ci) ci + p_maxappend P - 1) / p_maxappend P in
+           if fsm_mutate_cap <? batches then RcBlocks else RcOk s4 tr4
          end
-  else Some (Some (s3, [])).
+  else RcOk s3 [].
 
 Definition recover (P : params) (img : nstate) : recovered :=
   let s1 := set_vol_term (fresh_volatile img) (d_term img) in
@@ -577,10 +617,11 @@ Definition recover (P : params) (img : nstate) : recovered :=
     | None => RecErr
     | Some (s3, tr3) =>
       match rec_committed P s3 with
-      | None => RecErr
-      | Some None => RecPanic
-      | Some (Some (s4, tr4)) =>
-        let from := N.max (v_lastSnapIdx s4) (v_applied s4) + 1 in
+      | RcErr => RecErr
+      | RcPanic => RecPanic
+      | RcBlocks => RecBlocks
+      | RcOk s4 tr4 =>
+        let from := v_lastSnapIdx s4 + 1 in   (* after the fix: commit in /repo; the pinned tree started at max(snapshot, lastApplied)+1 *)
         match scan_configs P s4 from (N.to_nat (e_idx le + 1 - from)) with
         | None => RecPanic
         | Some s5 => RecOk s5 (ESetTerm (d_term img) true :: tr3 ++ tr4)   (* NewRaft: r.setCurrentTerm(currentTerm) writes the term back *)
